@@ -261,6 +261,7 @@ def encMsg : RMsg → Term
 def encRErr : RErr → Term
   | .notif n out => .app "NE" [Term.bool out, Enc.notif n]
   | .other => .atom "other"
+  | .eof => .atom "other"
   | .panic => .atom "PANIC"
 
 /-- expected reader outcome from the strict stream parser: the decodable prefix and the set of
@@ -316,7 +317,7 @@ def hRead : Handler
     let s ← Term.asBytes s
     let (ms, e) := readAll s
     let m := Term.app "R" [.list (ms.map encMsg), encRErr e]
-    let br := s!"m{min ms.length 4}." ++ (match e with | .notif n _ => s!"{n.code}.{n.sub}" | .other => "other" | .panic => "panic")
+    let br := s!"m{min ms.length 4}." ++ (match e with | .notif n _ => s!"{n.code}.{n.sub}" | .other => "other" | .eof => "eof" | .panic => "panic")
     pure ⟨m, readOracle s impl, br⟩
   | _, _ => none
 
